@@ -9,6 +9,7 @@
 #include <fcppt/type_traits/is_string.hpp>
 #include <fcppt/type_traits/value_type.hpp>
 #include <fcppt/config/external_begin.hpp>
+#include <ios>
 #include <locale>
 #include <sstream>
 #include <fcppt/config/external_end.hpp>
@@ -42,6 +43,10 @@ Dest output_to_string_locale(Source const &_source, std::locale const &_locale)
   ostringstream oss{};
 
   oss.imbue(_locale);
+
+  // Without this, an exception thrown while the output is written (for example by a failed
+  // allocation of the string buffer) is swallowed by the stream and a truncated string is returned.
+  oss.exceptions(std::ios_base::badbit);
 
   oss << _source;
 
